@@ -24,7 +24,7 @@ func init() {
 			{ID: "C18.R3", Doc: "empty => 0 via a presence flag set on every reducer invocation; Avg = Sum()/float64(Count())", Run: c18Avg},
 			{ID: "C18.R4", Doc: "selection: Int* fold exactly the int elements; Sum/Prod fold int and float64 elements", Run: func(c *Ctx) {}},
 			{ID: "C18.R6", Doc: "the folds the aggregates are built on (Reduce, ReduceInts) visit every element in order without early exit (= C14 on those methods)", Run: func(c *Ctx) {
-				c.R.Floor("C18.R6", runAs(c, "C18.R6", c14Run, func(o *Obligation) bool { return strings.Contains(o.Construct, "(*list).Reduce") }), 4)
+				c.R.Floor("C18.R6", runAs(c, "C18.R6", c14Run, func(o *Obligation) bool { return strings.Contains(o.Construct, "(*list).Reduce") }), 2)
 			}},
 			{ID: "C18.R5", Doc: "PURE: no aggregate writes the list", Run: func(c *Ctx) {
 				n := pureRule(c, "C18.R5", []string{"(*list).Sum", "(*list).Prod", "(*list).Min", "(*list).Max", "(*list).Avg", "(*list).IntSum", "(*list).IntProd", "(*list).IntMin", "(*list).IntMax"})
